@@ -215,7 +215,8 @@ class C14(scen.PairProp):
                        "I": I, "N": N, "real": real}
             else:
                 shift = rng.choice([1.0, 1.0e6, 1.7e9, 1.8e9 - 1000.0])
-                origin = 1000.0
+                spawn = rng.random() < 0.25
+                origin = 1000.0 if not spawn else rng.choice([0.5, 2.0, 1000.0])
                 t0 = origin + 0.25 + rng.random()
                 kind = rng.choice(["wait", "regression"])
                 inertia = rng.choice([0.0, 0.5, 1.0])
@@ -227,6 +228,18 @@ class C14(scen.PairProp):
                     e[0] += jit[j % len(jit)]
                 scA["events"] += evs
                 scB["events"] += [[e[0] + shift, e[1], e[2]] for e in evs]
+                if spawn:
+                    # the same with Wheatley spawned by Ringing Room just after Look To (--look-to-time): the time
+                    # given on the command line and the clock must be read in the same frame
+                    from harness.props.c19 import method_msg
+                    for sc, o, t in ((scA, origin, t0), (scB, origin + shift, t0 + shift)):
+                        sc["events"] = [e for e in sc["events"] if not (e[1] == "msg" and e[2].get("call") == LOOK_TO)]
+                        sc["look_to_time"] = scen.f2b(t)
+                        sc["start"] = t + 0.05
+                        sc["on_join"] = scen.humans_on_join(humans, "Wheatley", [b for b in range(1, 17) if b not in humans]) \
+                            + [method_msg(N)]
+                        sc["bot"] = scen.bot_cfg({"type": "placeholder"}, up_down_in=False, stop_at_rounds=False,
+                                                 user_name="Wheatley", server_id=3)
                 yield {"k": "pair", "scenarios": [scA, scB], "mode": "origin", "shift": shift, "t0": t0, "I": I, "N": N}
 
     def agents(self, req):
